@@ -187,7 +187,7 @@ func c11b(c *Ctx, a *absVariant) {
 			if iLoop >= 0 {
 				wrote := false
 				for _, e := range p[iLoop:] {
-					if (e.Kind == "call" || e.Kind == "ccall" || e.Kind == "set") && strings.Contains(e.Text, recv+"[#1].Error()") && (strings.Contains(e.Text, ".WriteString(") || strings.Contains(e.Text, "Fprint") || strings.Contains(e.Text, "=append(") || strings.Contains(e.Text, "+=")) {
+					if (e.Kind == "call" || e.Kind == "ccall" || e.Kind == "set") && strings.Contains(e.Text, recv+"[#1].Error()") && (strings.Contains(e.Text, ".WriteString(") || strings.Contains(e.Text, "Fprint") || strings.Contains(e.Text, "=append(") || strings.Contains(e.Text, "+=") || strings.Contains(e.Text, "[#1]="+recv+"[#1].Error()")) {
 						wrote = true
 					}
 				}
